@@ -155,7 +155,7 @@ def teval(e: ast.AST, env: dict, leaf: Optional[Callable] = None, depth: int = 0
     if isinstance(e, ast.BinOp):
         a, b = ev(e.left), ev(e.right)
         if isinstance(e.op, (ast.BitAnd, ast.BitOr, ast.BitXor)):
-            if all((_is_arr(x) and x.dtype == bool) or isinstance(x, bool) for x in (a, b)):
+            if all((_is_arr(x) and x.dtype == bool) or isinstance(x, (bool, np.bool_)) for x in (a, b)):
                 return {ast.BitAnd: np.logical_and, ast.BitOr: np.logical_or, ast.BitXor: np.logical_xor}[type(e.op)](a, b)
             raise NotEvaluable("bit operation on non-booleans")
         a, b = _as_exact(a), _as_exact(b)
@@ -630,7 +630,10 @@ def _call(c: ast.Call, ev, t: str):
     if m == "flatten":
         s, en = _kw(c, ev, ["start_dim", "end_dim"], [0, -1])
         s, en = _axis(_int(s), x.ndim), _axis(_int(en), x.ndim)
-        return x.reshape(x.shape[:s] + (-1,) + x.shape[en + 1:])
+        mid = 1
+        for d_ in x.shape[s:en + 1]:
+            mid *= d_
+        return x.reshape(x.shape[:s] + (mid,) + x.shape[en + 1:])  # (the extent written out: an empty tensor flattens like any other)
     if m in ("view", "reshape"):
         shape = [ev(a) for a in c.args]
         if len(shape) == 1 and isinstance(shape[0], tuple):
